@@ -130,7 +130,14 @@ class Scenario:
             self.objs.append(S.ServiceInstance(svc, L(), self.prot.announcer, tm))
             self.state[inst] = rng.choice(("running", "running", "running", "stopped"))
         self.mode = rng.choice(("normal",) * 8 + ("announcer-never-started", "announcer-stopped-again"))
-        if self.mode != "normal":
+        if self.mode == "normal" and rng.random() < 0.15:
+            # the application runs the life cycle of its instances itself: registered with the announcer, started one by one
+            # through ServiceInstance.start() when their backend is ready - the announcer as a whole is never started
+            self.mode = "instances-started-by-themselves"
+            for inst in self.insts:
+                if self.state[inst] != "running":
+                    self.state[inst] = "never-started"
+        elif self.mode != "normal":
             for inst in self.insts:
                 self.state[inst] = "never-started" if self.mode == "announcer-never-started" else "stopped"
         self.sess = {s: net.PeerSession() for s in SENDERS}
@@ -140,6 +147,11 @@ class Scenario:
         for inst, obj in zip(self.insts, self.objs):
             ann.announce_service(obj)
         if self.mode == "announcer-never-started":
+            return
+        if self.mode == "instances-started-by-themselves":
+            for inst, obj in zip(self.insts, self.objs):
+                if self.state[inst] == "running":
+                    obj.start()
             return
         ann.start()
         if self.mode == "announcer-stopped-again":
